@@ -17,6 +17,8 @@ SOLVENT_CATS = ('storage-label', 'factory-unit', 'storage-compare')
 
 
 def run(ctx):
+    from .configtime import derived_values as _derived
+    _derived(ctx, 'C05.R1', ('Container', 'Unit', 'Substance'))
     from .configtime import recorded_operands_not_mutated as _rec_inplace
     _rec_inplace(ctx, 'C05.R4', ('Recipe.create_solution', 'Container.create_solution'))
     from .configtime import cached_arrays_not_updated_in_place as _cached_arrays
